@@ -13,6 +13,13 @@
 #define CC_H
 #define TELETEXT_H
 #include <pthread.h>
+#ifdef C13_LT_MODEL
+/* Assume-guarantee with C12 (obligations p8301_*: the codec inverts the EN 300 706 9.8.1 encoding over the full MJD/UTC/LTO ranges): inside this
+   translation unit the local time codec is a model returning arbitrary logged results, so that the 64 bit MJD arithmetic stays out of the debounce
+   query (with the real codec: no verdict in 900 s).  The obligation then shows that the event carries exactly what the codec returned for exactly
+   this packet, and that a codec failure suppresses the event. */
+#define vbi_decode_teletext_8301_local_time c13_codec_8301_lt
+#endif
 #include "src/bcd.h"
 #include "src/format.h"
 #include "src/cache-priv.h"
@@ -71,26 +78,46 @@ static unsigned ref_station(int which /*1=8301 2=8302 4=VPS*/, unsigned cni)
 }
 
 #define EVMAX 8
-static struct evrec { int type; unsigned cni_vps, cni_8301, cni_8302, nuid; vbi_program_id pid; long long lt; int se; int se_valid;
+static struct evrec { int type; unsigned cni_vps, cni_8301, cni_8302, nuid;
+                      struct { int channel, cni_type; unsigned cni, pil; int luf, mi, prf, pcs_audio; unsigned pty; int tape_delayed; } pid;   /* scalars only: see c13_event */
+                      long long lt; int se; int se_valid;
                       int first_line, last_line, film, subt, anamorphic; } EV[EVMAX];
 static unsigned EVN;
 static void c13_event(vbi_decoder *vbi, vbi_event *ev)
 {
-  struct evrec *r; (void) vbi;
+  /* The record is assembled in a local and stored through a loop over constant indices (DESIGN R9): EVN is symbolic (whether a NETWORK event
+     precedes depends on the data), and memset + member stores through &EV[EVN] made cbmc 6.11 return counterexamples that do not exist
+     (DESIGN R16). */
+  struct evrec tmp; unsigned i; (void) vbi;
   if (EVN >= EVMAX) { EVN++; return; }
-  r = &EV[EVN++]; memset(r, 0, sizeof *r); r->type = ev->type;
+  { static const struct evrec zero; tmp = zero; }   /* no memset: evrec used to hold a vbi_program_id (pointer members), and cbmc's byte-wise memset
+                                                         of a struct with pointers corrupted the member stores that followed */
+  tmp.type = ev->type;
 #if defined(VERIF_NATIVE) && defined(C13_DEBUG)
-  fprintf(stderr, "event #%u type 0x%x cni_vps %x nuid %u\n", EVN - 1, ev->type, ev->ev.network.cni_vps, ev->ev.network.nuid);
+  fprintf(stderr, "event #%u type 0x%x cni_vps %x nuid %u\n", EVN, ev->type, ev->ev.network.cni_vps, ev->ev.network.nuid);
 #endif
   if (ev->type == VBI_EVENT_NETWORK || ev->type == VBI_EVENT_NETWORK_ID) {
-    r->cni_vps = (unsigned) ev->ev.network.cni_vps; r->cni_8301 = (unsigned) ev->ev.network.cni_8301; r->cni_8302 = (unsigned) ev->ev.network.cni_8302; r->nuid = ev->ev.network.nuid;
-  } else if (ev->type == VBI_EVENT_PROG_ID) { const vbi_program_id *pp = ev->ev.prog_id;   /* field-wise: see DESIGN R16 */
-    r->pid.channel = pp->channel; r->pid.cni_type = pp->cni_type; r->pid.cni = pp->cni; r->pid.pil = pp->pil; r->pid.luf = pp->luf;
-    r->pid.mi = pp->mi; r->pid.prf = pp->prf; r->pid.pcs_audio = pp->pcs_audio; r->pid.pty = pp->pty; r->pid.tape_delayed = pp->tape_delayed; }
-  else if (ev->type == VBI_EVENT_LOCAL_TIME) { r->lt = (long long) ev->ev.local_time->time; r->se = ev->ev.local_time->seconds_east; r->se_valid = ev->ev.local_time->seconds_east_valid; }
-  else if (ev->type == VBI_EVENT_ASPECT) { r->first_line = ev->ev.aspect.first_line; r->last_line = ev->ev.aspect.last_line; r->film = ev->ev.aspect.film_mode;
-    r->subt = ev->ev.aspect.open_subtitles; r->anamorphic = (ev->ev.aspect.ratio < 0.9); }
+    tmp.cni_vps = (unsigned) ev->ev.network.cni_vps; tmp.cni_8301 = (unsigned) ev->ev.network.cni_8301; tmp.cni_8302 = (unsigned) ev->ev.network.cni_8302; tmp.nuid = ev->ev.network.nuid;
+  } else if (ev->type == VBI_EVENT_PROG_ID) { const vbi_program_id *pp; memcpy(&pp, &ev->ev.prog_id, sizeof pp);   /* R16: see LOCAL_TIME below */
+    tmp.pid.channel = pp->channel; tmp.pid.cni_type = pp->cni_type; tmp.pid.cni = pp->cni; tmp.pid.pil = pp->pil; tmp.pid.luf = pp->luf;
+    tmp.pid.mi = pp->mi; tmp.pid.prf = pp->prf; tmp.pid.pcs_audio = pp->pcs_audio; tmp.pid.pty = pp->pty; tmp.pid.tape_delayed = pp->tape_delayed; }
+  else if (ev->type == VBI_EVENT_LOCAL_TIME) {
+    /* DESIGN R16: cbmc 6.11 stores a pointer written to ANY pointer member of the vbi_event union under the type of the FIRST pointer member
+       (vbi_link *); `ev->ev.local_time->time' is then dereferenced against an object smaller than vbi_link and yields arbitrary values (a
+       counterexample that does not exist; reproduced in a 30 line program).  Copying the pointer out of the union bytes gives it its own type. */
+    const vbi_local_time *lp; memcpy(&lp, &ev->ev.local_time, sizeof lp);
+    tmp.lt = (long long) lp->time; tmp.se = lp->seconds_east; tmp.se_valid = lp->seconds_east_valid; }
+  else if (ev->type == VBI_EVENT_ASPECT) { tmp.first_line = ev->ev.aspect.first_line; tmp.last_line = ev->ev.aspect.last_line; tmp.film = ev->ev.aspect.film_mode;
+    tmp.subt = ev->ev.aspect.open_subtitles; tmp.anamorphic = (ev->ev.aspect.ratio < 0.9); }
+  for (i = 0; i < EVMAX; i++) if (i == EVN) EV[i] = tmp;
+  EVN++;
 }
+
+#ifdef C13_LT_MODEL
+static long long LTM_T; static int LTM_SE; static int LTM_OK; static const uint8_t *LTM_BUF; static unsigned LTM_CALLS; static int LTM_BUF_OK = 1;
+vbi_bool c13_codec_8301_lt(time_t *t, int *se, const uint8_t buffer[42])
+{ LTM_CALLS++; if (buffer != LTM_BUF) LTM_BUF_OK = 0; if (!LTM_OK) return FALSE; *t = (time_t) LTM_T; *se = LTM_SE; return TRUE; }
+#endif
 
 /* independent reading of the VPS line (EN 300 231 / TR 101 231) */
 static unsigned ref_vps_cni(const uint8_t *b)
@@ -225,6 +252,9 @@ V_HARNESS(h_8301_debounce)
     unsigned before = EVN, k; int second;
     cni[t] = C[sel[t]];
     ref_encode_8301(pkt, in_u8() & 1, cni[t], mjd, hms, lto);
+#ifdef C13_LT_MODEL
+    LTM_T = (long long) in_u32() | ((long long) in_u32() << 32); LTM_SE = (int) in_u32(); LTM_OK = 1; LTM_BUF = pkt;
+#endif
     V_ASSERT(parse_8_30(&VBI, pkt, 30), "p8301_accepted");
     second = (t >= 1 && cni[t] == cni[t - 1] && (t == 1 || cni[t - 2] != cni[t - 1]));
     k = before;
@@ -240,7 +270,12 @@ V_HARNESS(h_8301_debounce)
     }
     /* local time of every packet, exactly as transmitted */
     V_ASSERT(EVN == k + 1 && EV[k].type == VBI_EVENT_LOCAL_TIME, "p8301_local_time_event");
+#ifdef C13_LT_MODEL
+    V_ASSERT(LTM_CALLS == t + 1 && LTM_BUF_OK, "p8301_codec_called_once_on_this_packet");
+    V_ASSERT(EV[k].lt == LTM_T && EV[k].se == LTM_SE && EV[k].se_valid, "p8301_local_time_values");
+#else
     V_ASSERT(EV[k].lt == exp_time && EV[k].se == exp_se && EV[k].se_valid, "p8301_local_time_values");
+#endif
     V_ASSERT(chsw_n == chsw_model, "p8301_cache_dropped_exactly_on_station_change");
   }
   V_END();
